@@ -22,7 +22,7 @@ TEXT_VALUES = (None, "a", "b", "ab", "B", "", "a")
 PROFILES = {
     # what the property at hand allows
     "optimizer": dict(windows=True, subqueries=True, any_all=True, full_join=True, setops=True, ctes=True, derived=True, limit=True, text_ops=True, distinct=True, group=True, setop_all=True),
-    "executor": dict(windows=False, subqueries=True, any_all=False, full_join=True, setops=True, ctes=True, derived=True, limit=True, text_ops=False, distinct=True, group=True, setop_all=True),
+    "executor": dict(explicit_nulls=True, windows=False, subqueries=True, any_all=False, full_join=True, setops=True, ctes=True, derived=True, limit=True, text_ops=False, distinct=True, group=True, setop_all=True),
     "common": dict(windows=False, subqueries=True, any_all=False, full_join=True, setops=True, ctes=True, derived=True, limit=True, text_ops=True, distinct=True, group=True, setop_all=False),
     "lineage": dict(windows=False, subqueries=False, any_all=False, full_join=False, setops=True, ctes=True, derived=True, limit=False, text_ops=True, distinct=False, group=False, setop_all=True),
 }
@@ -317,7 +317,7 @@ class Q:
             if k == 0:
                 s += " DESC"
                 self.f.add("order:desc")
-            if self.b(1, 4):
+            if self.b(1, 4) or self.p.get("explicit_nulls"):
                 s += self.pick((" NULLS FIRST", " NULLS LAST"))
                 self.f.add("order:nulls-explicit")
             items.append(s)
